@@ -641,7 +641,7 @@ impl SeqProp {
             }
             // a clear and a bulk ingestion after the reopen supersede recovered data as well (they install new tree
             // versions on the objects recovery built): handles and a new snapshot must both show it
-            for (ks, op) in [(1u8, Op::Clear { ks: 1 }), (0u8, Op::Ingest { ks: 0, items: vec![(0, Some(0)), (1, None), (2, Some(1))] })] {
+            for (ks, op) in [(1u8, Op::Clear { ks: 1 }), (0u8, Op::Ingest { ks: 0, items: vec![(0, Some(0)), (2, Some(1))] })] {
                 if !w.model.contains_key(&ks) || !w.write_enabled(ks) {
                     continue;
                 }
